@@ -104,12 +104,12 @@ theorem C20_teneye_sym [Zero α] [NatCast α] [Div α] (m n : Nat) (hm : m % 2 =
 of characteristic zero: `ttsv(teneye(m,n), x, skip first mode) = (xᵀx)^(m/2-1) · x`. -/
 theorem C20_teneye_identity [Field α] [CharZero α] (h n : Nat) (x : List α) (hx : x.length = n) :
     ∃ E y, Dense.teneye (2 * (h + 1)) n = .ok E ∧ E.ttsvFirst x = .ok y ∧ y.length = n ∧
-      ∀ k < n, y.getD k 0 = dot n (xw x) (xw x) ^ h * xw x k :=
+      ∀ k < n, y.getD k 0 = dotW n (xw x) (xw x) ^ h * xw x k :=
   teneye_identity h n x hx
 
 /-- Hence `teneye` acts as the identity on unit vectors: `xᵀx = 1 → ttsv(E, x, skip first) = x`. -/
 theorem C20_teneye_unit [Field α] [CharZero α] (h n : Nat) (x : List α) (hx : x.length = n)
-    (hunit : dot n (xw x) (xw x) = 1) :
+    (hunit : dotW n (xw x) (xw x) = 1) :
     ∃ E, Dense.teneye (2 * (h + 1)) n = .ok E ∧ E.ttsvFirst x = .ok x := by
   obtain ⟨E, y, h1, h2, h3, h4⟩ := teneye_identity h n x hx
   refine ⟨E, h1, ?_⟩
@@ -345,7 +345,7 @@ example : Dense.teneye (α := Rat) 4 2 = .ok ⟨[2, 2, 2, 2],
     [1, 0, 0, 1/3, 0, 1/3, 1/3, 0, 0, 1/3, 1/3, 0, 1/3, 0, 0, 1]⟩ := by decide +kernel
 example : (⟨[2, 2, 2, 2], [1, 0, 0, 1/3, 0, 1/3, 1/3, 0, 0, 1/3, 1/3, 0, 1/3, 0, 0, 1]⟩ : Dense Rat).ttsvFirst
     [3, 4] = .ok [75, 100] := by decide +kernel
-example : dot 2 (xw [(3 : Rat) / 5, 4 / 5]) (xw [(3 : Rat) / 5, 4 / 5]) = 1 := by
-  simp [dot, xw, Finset.sum_range_succ]; norm_num
+example : dotW 2 (xw [(3 : Rat) / 5, 4 / 5]) (xw [(3 : Rat) / 5, 4 / 5]) = 1 := by
+  simp [dotW, xw, Finset.sum_range_succ]; norm_num
 
 end Pyttb
